@@ -350,3 +350,51 @@ class Facts:
 
 def adt_field_names(adt):
     return [f['name'] for f in adt['variants'][0]['fields']]
+
+
+def resolve_ref(body, local, limit=12):
+    """follow single-definition chains `_a = &[mut] (*_b)` / `_a = move _b` back to the place
+    whose address was originally taken; returns that place (json) or None"""
+    cur = local
+    for _ in range(limit):
+        defs = body.defs.get(cur, [])
+        if len(defs) != 1:
+            return None
+        bi, si, kind, s = defs[0]
+        if kind != 'assign':
+            return None
+        rv = s['rv']
+        if rv['k'] in ('ref', 'rawptr'):
+            pl = rv['pl']
+            if pl['p'] and all(e['k'] == 'deref' for e in pl['p']) and pl['l'] > body.argc:
+                cur = pl['l']
+                continue
+            return pl
+        if rv['k'] in ('use', 'cast'):
+            pl = op_place(rv['op'])
+            if pl is not None and not pl['p']:
+                if pl['l'] <= body.argc:
+                    return pl
+                cur = pl['l']
+                continue
+            return pl
+        return None
+    return None
+
+
+def value_def(body, local, limit=12):
+    """follow moves/copies of a local back to its defining statement/terminator:
+    returns (kind, json) with kind in assign|call, or None"""
+    cur = local
+    for _ in range(limit):
+        defs = body.defs.get(cur, [])
+        if len(defs) != 1:
+            return None
+        bi, si, kind, s = defs[0]
+        if kind == 'assign' and s['rv']['k'] == 'use':
+            pl = op_place(s['rv']['op'])
+            if pl is not None and not pl['p'] and pl['l'] > body.argc:
+                cur = pl['l']
+                continue
+        return (kind, s, bi, si)
+    return None
